@@ -502,6 +502,11 @@ def run(pid, tier, replay_file=None):
     sermodel = {}
     if pid in ("C03", "C06") and not replay_file:
         sermodel = serializer_model_part(rep, pid, tier)
+    if pid == "C06" and not replay_file:
+        # the Python route of the round trip on descriptions: every description of MC_Desc must
+        # give a module that executes (C06 executes the generated source to get the classes back)
+        import checks_refs
+        sermodel = dict(sermodel, docstring_exec=checks_refs.docstring_exec_part(rep, tier, pid="C06"))
     desc_cov = {}
     if pid == "C07" and not replay_file:
         import checks_desc
